@@ -332,7 +332,7 @@ def search_graphs(ctx):
     for n, es in graphcap.all_multigraphs(4, 5):
         yield "small", n, es, None
     # 5 vertices: all graphs with few edges, sampled beyond
-    lim5 = 5 if (ctx.thorough or ctx.deep) else 3
+    lim5 = 5 if (ctx.thorough or ctx.deep) else 4
     for n, es in graphcap.all_multigraphs(5, lim5):
         if n == 5:
             yield "five", n, es, None
@@ -346,9 +346,70 @@ def search_graphs(ctx):
             yield "random", n, es, None
         else:
             yield "random", n, es, tree_biased_patterns(rng, n, es, 24)
+    # dense graphs need many distinct ranks: complete graphs, wheels, doubled cycles
+    for n in range(3, 9 if (ctx.thorough or ctx.deep) else 8):
+        es = [(a, b) for a in range(n) for b in range(a + 1, n)]
+        yield "complete", n, es, (None if len(es) <= 6 else tree_biased_patterns(rng, n, es, 30))
+        cyc = [(i, (i + 1) % n) for i in range(n)]
+        dbl = cyc + [(b, a) for (a, b) in cyc]
+        yield "doubled-cycle", n, dbl, (None if len(dbl) <= 8 else tree_biased_patterns(rng, n, dbl, 30))
     for h, w in [(2, 2), (2, 3), (3, 3), (2, 4), (1, 5), (3, 4)]:
         es = graphcap.grid_edges(h, w)
         yield "grid", h * w, es, (None if len(es) <= 7 else tree_biased_patterns(rng, h * w, es, 40))
+
+
+def bool_value(e, val):
+    """value of a flag tree under an assignment of the caller's BoolVars (plain Python)"""
+    from cspuz.expr import BoolVar, Op
+    if e is True or e is False:
+        return e
+    if isinstance(e, BoolVar):
+        return val[e.id]
+    a = [bool_value(x, val) for x in e.operands]
+    return {Op.NOT: lambda: not a[0], Op.AND: lambda: all(a), Op.OR: lambda: any(a),
+            Op.IFF: lambda: a[0] == a[1], Op.XOR: lambda: a[0] != a[1],
+            Op.IMP: lambda: (not a[0]) or a[1], Op.BOOL_CONSTANT: lambda: a[0]}[e.op]()
+
+
+def search_expression_flags(ctx):
+    """edge flags given as expressions (~v, v&w, v|w, constants, shared variables): the caller's variables are
+    fixed, the pattern is the value of the flags, satisfiability of the posted program must follow the oracle."""
+    from cspuz import Solver
+    from cspuz.expr import BoolVar
+    from cspuz.graph import active_edges_acyclic
+    rng = ctx.rng
+    graphs = [(n, es) for n, es in graphcap.all_multigraphs(3, 4)]
+    graphs += [graphcap.random_multigraph(rng, 7) for _ in range(120 if ctx.thorough else 40)]
+    for n, es in graphs:
+        for form in ("neg", "and", "or", "const", "shared", "mixed"):
+            s = Solver()
+            pre_state(s, rng, 1)
+            arg, trees = make_flags(s, len(es), form, rng)
+            callers = [v for v in s.variables if isinstance(v, BoolVar)]
+            r = vlib.guarded(active_edges_acyclic, s, arg, graphcap.mk_graph(n, es))
+            if r[0] == "err":
+                ctx.violation("acyclic:n=%d:e=%s:%s:raises" % (n, ",".join("%d-%d" % e for e in es), form),
+                              "active_edges_acyclic raises on a well-formed call",
+                              {"n": n, "edges": es, "flags": exprio.show_list(trees), "error": r[1]})
+                continue
+            check = z3_session(s)
+            for _ in range(6):
+                val = {v.id: rng.random() < 0.6 for v in callers}
+                pat = [bool_value(t, val) for t in trees]
+                want = graphcap.edges_form_forest(n, es, pat)
+                got = check([(v, val[v.id]) for v in callers])
+                ctx.prop_case("sat-vs-forest:expr-flags", (n, tuple(es), form, exprio.show_list(trees), tuple(sorted(val.items()))))
+                ctx.count("pattern:" + ("forest" if want else "cyclic"))
+                if got != want:
+                    ctx.violation("acyclic:n=%d:e=%s:flags=%s:val=%s" % (
+                        n, ",".join("%d-%d" % e for e in es), exprio.show_list(trees).replace(" ", ""),
+                        "".join("1" if val[v.id] else "0" for v in callers)),
+                        "posted constraints are %s although the active edges %s" % (
+                            "satisfiable" if got else "unsatisfiable",
+                            "contain a cycle" if not want else "form a forest"),
+                        {"n": n, "edges": es, "flags": exprio.show_list(trees), "pattern": [int(b) for b in pat],
+                         "caller_assignment": {str(k): v for k, v in val.items()},
+                         "expected_satisfiable": want, "observed_satisfiable": got})
 
 
 def search(ctx):
@@ -399,6 +460,7 @@ def search(ctx):
                     cert_meta.append((n, es, pat, ranks))
                 if sample and want and len(rank_vars) == n:
                     rank_jobs.append((n, es, pat, check, fl, rank_vars))
+    search_expression_flags(ctx)
     if m is None:
         return
     # the Coq specification agrees with the independent oracle
